@@ -96,7 +96,7 @@ def main():
     # scratch copy of the package with another tensor-name configuration
     scratch = tempfile.mkdtemp(prefix="verif-c19-")
     try:
-        shutil.copytree("/repo/adcgen", os.path.join(scratch, "adcgen"),
+        shutil.copytree(os.path.join(driver.REPO, "adcgen"), os.path.join(scratch, "adcgen"),
                         ignore=shutil.ignore_patterns("__pycache__"))
         with open(os.path.join(scratch, "adcgen", "tensor_names.json"), "w") as fh:
             json.dump(ALT_NAMES, fh)
